@@ -368,3 +368,27 @@ def poison_rules(ctx):
     def guard_not_panicking(a):
         return a.kind == "truth" and a.truth is False and all_fields(a.origin)[-1:] == ["may::sync::poison::Guard.panicking"]
     ctx.guarded(FD, PST, guard_not_panicking, "poison-only-new-panic", "no poisoning when the guard was created while already panicking", pred_label="edge `guard.panicking` is false")
+
+# ------------------------------------------------------------------------------------------------
+# cqueue: drain before Finished (C14, C16)
+
+def cqueue_finished_rules(ctx):
+    CQ = "may::cqueue::Cqueue"
+    PL = CQ + "::poll"
+    f = ctx.fn("R-EXIT", PL, "cqueue/drain-before-finished")
+    if f is not None:
+        cz = lambda a: a.kind == "cmp" and a.op == "Eq" and is_call_result(A("load"), CQ + ".cnt")(a.a) and is_const(0)(a.b)
+        es = ctx.edges(f, cz)
+        fin = ctx.an.sites(f, Agg("may::cqueue::PollError", "Finished", transitive=False), "may")
+        pops = ctx.an.sites(f, Call(MQ_MPSC + "pop", on=CQ + ".ev_queue", transitive=False), "must")
+        if not es or not fin or not pops:
+            ctx.missing("R-EXIT", PL, "cqueue/drain-before-finished", "cnt==0 edges=%d Finished=%d pop=%d" % (len(es), len(fin), len(pops)))
+        else:
+            r = ctx.an.reach(f, [Point(tb, 0) for _, tb, _ in es], blocked=pops)
+            bad = [x for x in fin if x in r]
+            ctx.ob("R-EXIT", PL, "cqueue/drain-before-finished", not bad,
+                   "after seeing cnt == 0 the queue is popped once more before Finished is reported: every Done event (= every join of a selector) is consumed first" if not bad else
+                   "poll reports Finished right after seeing cnt == 0: a Done event pushed between the empty pop and the cnt load is skipped, so its selector is not joined and may still be running when the cqueue is freed",
+                   f.where(sorted(fin)[0]))
+        ctx.mo_floor(CQ + ".cnt", ("fetch_sub",), "REL", "cqueue/cnt-dec-release", "the Done push is visible to the poller that sees the decrement", only_in=r"<may::cqueue::EventSender as std::ops::Drop>::drop")
+        ctx.mo_floor(CQ + ".cnt", ("load",), "ACQ", "cqueue/cnt-load-acquire", "", only_in=re.escape(PL))
